@@ -1,6 +1,8 @@
 package main
 
 import (
+	"runtime"
+	"bytes"
 	"context"
 	"encoding/binary"
 	"fmt"
@@ -20,6 +22,7 @@ func init() {
 	commands["sched-rec"] = cmdSchedRec
 	commands["sched-rec-overlap"] = cmdSchedRecOverlap
 	commands["rec-tick"] = cmdRecTick
+	commands["conc-events"] = cmdConcEvents
 	streams["sched-rec"] = streamSchedRec
 	streams["rec-tick"] = streamRecTick
 }
@@ -349,6 +352,80 @@ func cmdSchedRecOverlap(o *Out, line string, f []string) {
 	o.count("sched-rec-overlap-" + kind)
 }
 
+// conc-events <G> <M> <observers> <seed>: the events package's synchronized collector (over a cumulative collector over a
+// batch collector) used by G workers (AddEvent) while observers call Resolve, Info and SetMetadata - starting on the
+// EMPTY collector, so that the first Resolve calls fail while writers queue up.  No call blocks (the watchdog of the
+// isolated child turns a deadlock into `hang`), and every event is persisted.
+func cmdConcEvents(o *Out, line string, f []string) {
+	G, M, obsN := int(atoi64(f[0])), int(atoi64(f[1])), int(atoi64(f[2]))
+	inner := ftdc.NewBatchCollector(50)
+	c := events.NewSynchronizedCollector(events.NewBasicCollector(inner))
+	var wg, owg sync.WaitGroup
+	stop := make(chan struct{})
+	start := make(chan struct{})
+	var failedResolves int64
+	for k := 0; k < obsN; k++ {
+		owg.Add(1)
+		go func(k int) {
+			defer owg.Done()
+			<-start
+			for {
+				select {
+				case <-stop:
+					return
+				default:
+				}
+				if _, err := c.Resolve(); err != nil {
+					atomic.AddInt64(&failedResolves, 1)
+				}
+				_ = c.Info()
+				if k%2 == 1 {
+					_ = c.SetMetadata(birch.NewDocument(birch.EC.Int64("m", int64(k))))
+				}
+				runtime.Gosched()
+			}
+		}(k)
+	}
+	refused := int64(0)
+	for g := 0; g < G; g++ {
+		wg.Add(1)
+		go func(g int) {
+			defer wg.Done()
+			<-start
+			for i := 0; i < M; i++ {
+				if err := c.AddEvent(&events.Performance{Counters: events.PerformanceCounters{Operations: 1}}); err != nil {
+					atomic.AddInt64(&refused, 1)
+				}
+			}
+		}(g)
+	}
+	close(start)
+	time.Sleep(200 * time.Microsecond) // observers meet the empty collector first
+	wg.Wait()
+	close(stop)
+	owg.Wait()
+	n := -1
+	var last int64 = -1
+	if out, err := c.Resolve(); err == nil {
+		it := ftdc.ReadMetrics(context.Background(), bytes.NewReader(out))
+		n = 0
+		for it.Next() {
+			n++
+			if v, ok := it.Document().Lookup("counters.ops").Int64OK(); ok {
+				last = v
+			}
+		}
+		it.Close()
+	}
+	o.emit(line, fmt.Sprintf("persisted=%d ops=%d", n, last))
+	o.nontrivial(line)
+	o.count("conc-events")
+	if refused != 0 || n != G*M || last != int64(G*M) {
+		o.violation(line, "the synchronized event collector lost events under concurrent use",
+			map[string]interface{}{"issued": G * M, "refused": refused, "samples": n, "final_ops": last})
+	}
+}
+
 func streamRecTick(o *Out, rng *rand.Rand, thorough bool, _ []string) {
 	var lines []string
 	fails := []string{"-", "0", "1", "0,2", "3"}
@@ -368,6 +445,9 @@ func streamSchedRec(o *Out, rng *rand.Rand, thorough bool, _ []string) {
 	no := 12
 	if thorough {
 		no = 200
+	}
+	for i := 0; i < no/2; i++ {
+		lines = append(lines, fmt.Sprintf("conc-events %d %d %d %d", 2+rng.Intn(7), 20+rng.Intn(200), 1+rng.Intn(3), rng.Intn(1<<20)))
 	}
 	for i := 0; i < no; i++ {
 		lines = append(lines, fmt.Sprintf("sched-rec-overlap %s %d %d %d %d", []string{"sync", "interval"}[i%2], 2+rng.Intn(7), 200+rng.Intn(3000),
